@@ -25,6 +25,10 @@ def run(ctx):
         for k, w in cs:
             wfs.append(w)
             kinds.append(k)
+    for w in pc.overlapping_reference_shapes():
+        for _ in range(3):          # prepared several times: Go's map order changes between preparations
+            wfs.append(w)
+            kinds.append('valid-overlapping-references')
     ok, oracle, st, out, conf = pc.prepare_oracle(ctx, wfs)
     if not ok:
         ctx.inconclusive('Prepare.tla failed or its confluence invariant is violated in the model: ' + out[-1500:])
